@@ -65,17 +65,26 @@ func EncodeWith(p *Packet, v Version, o EncodeOpts) ([]byte, error) {
 	if err != nil {
 		return nil, fmt.Errorf("mqttwire: Encode %s: %w", p.Type, err)
 	}
-	if len(body) > MaxVarInt {
-		return nil, fmt.Errorf("mqttwire: Encode %s: remaining length %d: %w", p.Type, len(body), ErrTooLarge)
+	// The PUBLISH payload is not part of body: it is appended directly to the
+	// output so that large payloads are copied once, and not at all when the
+	// packet is too large.
+	var tail []byte
+	if p.Type == PUBLISH {
+		tail = p.Payload
+	}
+	rl := len(body) + len(tail)
+	if rl > MaxVarInt {
+		return nil, fmt.Errorf("mqttwire: Encode %s: remaining length %d: %w", p.Type, rl, ErrTooLarge)
 	}
 	flags := fixedFlags(p, v)
 	if o.FixedFlags != nil {
 		flags = *o.FixedFlags & 0x0f
 	}
-	out := make([]byte, 0, 1+VarIntLen(uint32(len(body)))+len(body))
+	out := make([]byte, 0, 1+VarIntLen(uint32(rl))+rl)
 	out = append(out, byte(p.Type)<<4|flags)
-	out = AppendVarInt(out, uint32(len(body)))
+	out = AppendVarInt(out, uint32(rl))
 	out = append(out, body...)
+	out = append(out, tail...)
 	return out, nil
 }
 
@@ -100,6 +109,8 @@ func fixedFlags(p *Packet, v Version) byte {
 	return 0
 }
 
+// encodeBody returns everything after the fixed header, except the payload of
+// a PUBLISH.
 func encodeBody(p *Packet, v Version, o EncodeOpts) ([]byte, error) {
 	var b []byte
 	var err error
@@ -184,7 +195,7 @@ func encodeBody(p *Packet, v Version, o EncodeOpts) ([]byte, error) {
 				return nil, err
 			}
 		}
-		return append(b, p.Payload...), nil
+		return b, nil // payload: see EncodeWith
 
 	case PUBACK, PUBREC, PUBREL, PUBCOMP:
 		b = binary.BigEndian.AppendUint16(b, p.PacketID)
